@@ -1,4 +1,6 @@
 import NunavutVerif.Lemmas.Resolve
+import NunavutVerif.Lemmas.ResolveDirs
+import NunavutVerif.Lemmas.EnvCtor
 /-!
 # C16 — template resolution and environment contract
 
@@ -10,7 +12,14 @@ single-inheritance and ranked (= acyclic), every pair of template sets (each loa
 cache reachable by any sequence of earlier look-ups with any fuel, every class, every sufficient fuel.
 Parts 2 and 4: the generated PyDSDL table, by `decide` over the whole table.  Part 3: every list of user
 directories, every package content, every template name.  Part 5: every configuration of built-in names,
-every list of user globals / filters / tests.
+every list of user globals / filters / tests.  Part 6 (round 2): every ORDERED LIST of user directories (each an
+arbitrary name ↦ content store), every package, hierarchy, cache, class — `Model/ResolveDirs.lean` models
+`FileSystemLoader.list_templates` (union of ALL search paths, `sorted(set(·))`), `get_source` (first hit),
+`DSDLTemplateLoader.get_templates` (glob under every search path).  Part 7: every loader configuration (any boolean
+attributes of the loader object), every constructor argument, every additional_* map, each of the three ways an
+environment is constructed — `Model/EnvCtor.lean` interprets the statement list and the right-hand side of
+`_allow_replacements` REGENERATED from the source (`Gen/EnvCtor.lean`).  Part 8: the instance tests of the finished
+environment of every target language (regenerated), by `decide` over the whole tables.
 
 Which names of the environment are protected against additional filters / tests / globals, and by what
 (all four mechanisms are in `construct`; theorem 22 `C16_user_additions_never_replace_builtins` covers them together):
@@ -666,5 +675,385 @@ example :
     (construct exCfg₂ false [] [] [("StructureType".toList, .user 0)]).isOk = false ∧
     (construct exCfg₂ true [] [] [("StructureType".toList, .user 0)]).isOk = true := by
   decide
+
+/-! ## 6. A LIST of user template directories -/
+
+
+/-- `FileSystemLoader.list_templates()` over a directory list: exactly the names some directory of the list has —
+EVERY directory, not only the first —, each once, in Python's string order. -/
+theorem C16_dirs_listing_is_union (dirs : List Store) :
+    (∀ p, p ∈ fsList dirs ↔ ∃ d ∈ dirs, p ∈ names d) ∧ StrictSorted (fsList dirs) :=
+  ⟨fun p => mem_fsList p dirs, strictSorted_sortDedup _⟩
+
+/-- Resolution over a directory LIST is resolution over the UNION directory in which, under every name, the file of
+the first directory that has the name shadows those of the later ones: for ANY single directory `u` with that content,
+`type_to_template` (any hierarchy, fuel, cache, class) and `get_source` (any spelling) give the same answers; the
+concatenation of the directories is such a `u`. -/
+theorem C16_dirs_lookup_is_union_lookup (H : Hier) (sfx : Name) (fuel : Nat) (cache : Cache) (dirs : List Store)
+    (u : Store) (hu : UnionOf u dirs) (pkg : Option Store) (c : Cls) (t : Path) :
+    lookupDirs H sfx fuel cache (some dirs) pkg c = lookupDirs H sfx fuel cache (some [u]) pkg c ∧
+    getSource (some dirs) pkg t = getSource (some [u]) pkg t ∧
+    UnionOf dirs.flatten dirs := by
+  refine ⟨?_, ?_, unionOf_flatten dirs⟩
+  · simp only [lookupDirs, Option.map_some, dirsTemplates, fsList_union hu]
+  · unfold getSource getSourceAt
+    cases canonicalName t with
+    | none => rfl
+    | some c => simp only [Option.bind_some, fsSource, ← hu c]; cases sfind u c <;> rfl
+
+/-- A class has a user template iff ANY directory of the list holds a template file with its name as the stem; then
+the dict `type_to_template` searches holds a USER file for it, whatever the package has (precedence of the user's
+templates, over every directory). -/
+theorem C16_dirs_user_template_in_any_directory (sfx : Name) (dirs : List Store) (pkg : Option Store) (n : Name) :
+    ((tfind (dirsTemplates sfx dirs) n).isSome ↔ ∃ d ∈ dirs, ∃ p ∈ names d, splitExt (baseName p) = (n, sfx)) ∧
+    (∀ d ∈ dirs, ∀ p ∈ names d, splitExt (baseName p) = (n, sfx) →
+      ∃ q, mfind (some (dirsTemplates sfx dirs)) (pkg.map (pkgTemplates sfx)) n = some q ∧
+        (∃ d' ∈ dirs, q ∈ names d') ∧ splitExt (baseName q) = (n, sfx)) := by
+  have key : ∀ q, (n, q) ∈ dirsTemplates sfx dirs ↔ (∃ d ∈ dirs, q ∈ names d) ∧ splitExt (baseName q) = (n, sfx) := by
+    intro q; unfold dirsTemplates; rw [mem_templatesOf, mem_fsList]
+  constructor
+  · constructor
+    · intro h
+      cases hf : tfind (dirsTemplates sfx dirs) n with
+      | none => rw [hf] at h; cases h
+      | some q =>
+        have hm : (n, q) ∈ dirsTemplates sfx dirs := tfind_mem hf
+        obtain ⟨⟨d, hd, hq⟩, hs⟩ := (key q).mp hm
+        exact ⟨d, hd, q, hq, hs⟩
+    · rintro ⟨d, hd, p, hp, hs⟩
+      obtain ⟨q, hq⟩ := tfind_some_of_mem ((key p).mpr ⟨⟨d, hd, hp⟩, hs⟩)
+      rw [hq]; rfl
+  · intro d hd p hp hs
+    obtain ⟨q, hq⟩ := tfind_some_of_mem ((key p).mpr ⟨⟨d, hd, hp⟩, hs⟩)
+    refine ⟨q, by simp [mfind, hq], ?_⟩
+    exact (key q).mp (tfind_mem hq)
+
+/-- Theorem 1 for a loader over a directory list: the template of the nearest class of the chain that has one in ANY of
+the user directories or in the package (`C16_dirs_user_template_in_any_directory` says when that is). -/
+theorem C16_dirs_lookup_nearest {H : Hier} {rank : Cls → Nat} (hS : SingleInheritance H) (hR : RankedBy H rank)
+    (sfx : Name) (dirs : Option (List Store)) (pkg : Option Store) {cache : Cache}
+    (hc : Reachable H (dirs.map (dirsTemplates sfx)) (pkg.map (pkgTemplates sfx)) cache) (c : Cls) (fuel : Nat)
+    (hf : rank c < fuel) :
+    ∃ cache', lookupDirs H sfx fuel cache dirs pkg c =
+        some (nearestAncestor H (mfind (dirs.map (dirsTemplates sfx)) (pkg.map (pkgTemplates sfx))) rank c, cache') ∧
+      Reachable H (dirs.map (dirsTemplates sfx)) (pkg.map (pkgTemplates sfx)) cache' :=
+  C16_lookup_nearest hS hR _ _ hc c fuel hf
+
+/-- A name the file-system loader lists is loaded by `get_source` from the FIRST directory of the list that has it
+(index `i`): that directory has it, no earlier one does, the package is not consulted. -/
+theorem C16_dirs_listed_name_loads_from_first_directory (dirs : List Store) (pkg : Option Store) (p : Path)
+    (hp : p ∈ fsList dirs) :
+    ∃ i v, firstDir dirs p = some (i, v) ∧ getSourceAt (some dirs) pkg p = some (.user, v) ∧
+      (∃ d, dirs[i]? = some d ∧ sfind d p = some v) ∧ ∀ j, j < i → ∀ d, dirs[j]? = some d → sfind d p = none := by
+  have h1 : (fsSource dirs p).isSome := (fsSource_isSome_iff p dirs).mpr ((mem_fsList p dirs).mp hp)
+  have h2 := firstDir_fsSource p dirs
+  cases hf : firstDir dirs p with
+  | none => rw [hf] at h2; rw [← h2] at h1; cases h1
+  | some r =>
+    obtain ⟨i, v⟩ := r
+    rw [hf] at h2
+    simp only [Option.map_some] at h2
+    obtain ⟨h3, h4⟩ := firstDir_spec p dirs i v hf
+    exact ⟨i, v, rfl, by simp [getSourceAt, ← h2], h3, h4⟩
+
+/-- `type_to_template` returns only candidates (values of the dict it searches), and every candidate is returned for
+some class: the one-class hierarchy whose class is named by the candidate's stem. -/
+theorem C16_dirs_lookup_returns_candidates {H : Hier} {rank : Cls → Nat} (hS : SingleInheritance H) (hR : RankedBy H rank)
+    (sfx : Name) (dirs : Option (List Store)) (pkg : Option Store) :
+    (∀ {cache : Cache}, Reachable H (dirs.map (dirsTemplates sfx)) (pkg.map (pkgTemplates sfx)) cache →
+      ∀ c fuel p cache', lookupDirs H sfx fuel cache dirs pkg c = some (some p, cache') →
+        p ∈ candidates sfx dirs pkg) ∧
+    (∀ p ∈ candidates sfx dirs pkg, ∃ n cache',
+      lookupDirs ⟨fun _ => [], fun _ => n⟩ sfx 1 [] dirs pkg 0 = some (some p, cache')) := by
+  constructor
+  · intro cache hc c fuel p cache' h
+    have := C16_lookup_sound hS hR _ _ hc c fuel (some p) cache' h
+    obtain ⟨c', _, h2⟩ := nearest_some this.symm
+    exact (mem_candidates sfx dirs pkg p).mpr ⟨_, h2⟩
+  · intro p hp
+    obtain ⟨n, hn⟩ := (mem_candidates sfx dirs pkg p).mp hp
+    rw [← tfind_merged_fun] at hn
+    exact ⟨n, [(0, p)], by simp [lookupDirs, lookup, bfs, cfind, hn]⟩
+
+/-- `get_templates()` (what `--list-inputs` reports) against resolution, user directories `dirs`, suffix `.x`:
+(1) under the user directories it lists the files of EVERY directory that match `*.x`;
+(2) every path resolution can return is listed — as the very file `get_source` opens for it: the copy in the first
+    directory that has the name, or the package's when no directory has it;
+(3) every listed file (other than one whose whole name is the bare suffix) names a stem for which resolution has a
+    template — the listed file itself unless another file with the same stem takes precedence (user over built-in,
+    the later name in the sorted listing within one loader, the earlier directory for the same name). -/
+theorem C16_enumeration_lists_what_resolution_returns (x : List Char) (hx : x ≠ []) (hdot : '.' ∉ x)
+    (dirs : List Store) (pkg : Option Store) :
+    (∀ j p, (Origin.user, j, p) ∈ getTemplates ('.' :: x) (some dirs) pkg ↔
+        ∃ d, dirs[j]? = some d ∧ p ∈ names d ∧ globMatch ('.' :: x) p = true) ∧
+    (∀ p ∈ candidates ('.' :: x) (some dirs) pkg,
+        (∃ i v, firstDir dirs p = some (i, v) ∧ (Origin.user, i, p) ∈ getTemplates ('.' :: x) (some dirs) pkg) ∨
+        ((∀ d ∈ dirs, p ∉ names d) ∧ (Origin.builtin, 0, p) ∈ getTemplates ('.' :: x) (some dirs) pkg)) ∧
+    (∀ o j p, (o, j, p) ∈ getTemplates ('.' :: x) (some dirs) pkg → baseName p ≠ '.' :: x →
+        ∃ q ∈ candidates ('.' :: x) (some dirs) pkg, (splitExt (baseName q)).1 = (splitExt (baseName p)).1) := by
+  have huser : ∀ j p, (Origin.user, j, p) ∈ getTemplates ('.' :: x) (some dirs) pkg ↔
+      ∃ d, dirs[j]? = some d ∧ p ∈ names d ∧ globMatch ('.' :: x) p = true := by
+    intro j p
+    unfold getTemplates
+    rw [List.mem_append, mem_enumDirs]
+    constructor
+    · rintro (⟨_, _, d, h⟩ | h)
+      · exact ⟨d, by simpa using h⟩
+      · cases pkg <;> simp at h
+    · rintro ⟨d, h⟩
+      exact Or.inl ⟨rfl, Nat.zero_le _, d, by simpa using h⟩
+  have hbuiltin : ∀ p s, pkg = some s → p ∈ pkgList s → suffixMatch ('.' :: x) p = true →
+      (Origin.builtin, 0, p) ∈ getTemplates ('.' :: x) (some dirs) pkg := by
+    intro p s hs h1 h2
+    unfold getTemplates
+    rw [List.mem_append]
+    right
+    subst hs
+    simp only [List.mem_map, List.mem_filter]
+    exact ⟨p, ⟨h1, h2⟩, rfl⟩
+  refine ⟨huser, ?_, ?_⟩
+  · intro p hp
+    obtain ⟨n, hn⟩ := (mem_candidates _ _ _ p).mp hp
+    unfold mfind at hn
+    simp only [Option.map_some, Option.bind_some] at hn
+    cases hfs : tfind (dirsTemplates ('.' :: x) dirs) n with
+    | some q =>
+      rw [hfs] at hn
+      simp only [Option.some.injEq] at hn
+      subst hn
+      have hm := tfind_mem hfs
+      unfold dirsTemplates at hm
+      rw [mem_templatesOf] at hm
+      obtain ⟨i, v, h1, _, ⟨d, h3, h4⟩, _⟩ := C16_dirs_listed_name_loads_from_first_directory dirs pkg q hm.1
+      left
+      refine ⟨i, v, h1, (huser i q).mpr ⟨d, h3, (sfind_isSome_iff q d).mp (by simp [h4]), ?_⟩⟩
+      exact suffixMatch_globMatch _ _ (by simp [suffixMatch, hm.2])
+    | none =>
+      rw [hfs] at hn
+      simp only at hn
+      cases hpk : pkg with
+      | none => rw [hpk] at hn; simp at hn
+      | some s =>
+        rw [hpk] at hn
+        simp only [Option.map_some, Option.bind_some] at hn
+        have hm := tfind_mem hn
+        unfold pkgTemplates at hm
+        rw [mem_templatesOf] at hm
+        right
+        refine ⟨?_, hpk ▸ hbuiltin p s hpk hm.1 (by simp [suffixMatch, hm.2])⟩
+        intro d hd hpd
+        have hnone := (tfind_none_iff _ n).mp hfs p
+        apply hnone
+        unfold dirsTemplates
+        rw [mem_templatesOf, mem_fsList]
+        exact ⟨⟨d, hd, hpd⟩, hm.2⟩
+  · intro o j p hmem hbase
+    -- the stem of a listed file is a key of the merged dict
+    have hkey : ∃ q, tfind (merged (some (dirsTemplates ('.' :: x) dirs)) (pkg.map (pkgTemplates ('.' :: x))))
+        (splitExt (baseName p)).1 = some q := by
+      unfold getTemplates at hmem
+      rw [List.mem_append] at hmem
+      rcases hmem with h | h
+      · rw [mem_enumDirs] at h
+        obtain ⟨_, _, d, h1, h2, h3⟩ := h
+        have hsm : suffixMatch ('.' :: x) p = true := by
+          rcases (globMatch_iff x hx hdot p).mp h3 with h | h
+          · exact h
+          · exact absurd h hbase
+        have hd : d ∈ dirs := List.mem_of_getElem? h1
+        have : ((splitExt (baseName p)).1, p) ∈ dirsTemplates ('.' :: x) dirs := by
+          unfold dirsTemplates
+          rw [mem_templatesOf, mem_fsList]
+          refine ⟨⟨d, hd, h2⟩, ?_⟩
+          have := of_decide_eq_true hsm
+          exact Prod.ext rfl this
+        obtain ⟨q, hq⟩ := tfind_some_of_mem this
+        exact ⟨q, by rw [tfind_merged]; simp [mfind, hq]⟩
+      · cases hpk : pkg with
+        | none => rw [hpk] at h; simp at h
+        | some s =>
+          rw [hpk] at h
+          simp only [List.mem_map, List.mem_filter, Prod.mk.injEq] at h
+          obtain ⟨p', ⟨h1, h2⟩, _, _, rfl⟩ := h
+          have : ((splitExt (baseName p')).1, p') ∈ pkgTemplates ('.' :: x) s := by
+            unfold pkgTemplates
+            rw [mem_templatesOf]
+            exact ⟨h1, Prod.ext rfl (of_decide_eq_true h2)⟩
+          obtain ⟨q, hq⟩ := tfind_some_of_mem this
+          rw [tfind_merged]
+          unfold mfind
+          simp only [Option.map_some, Option.bind_some]
+          cases tfind (dirsTemplates ('.' :: x) dirs) (splitExt (baseName p')).1 with
+          | some q' => exact ⟨q', rfl⟩
+          | none => exact ⟨q, hq⟩
+    obtain ⟨q, hq⟩ := hkey
+    have hqm := tfind_mem hq
+    refine ⟨q, ?_, ?_⟩
+    · unfold candidates
+      simp only [List.mem_map, List.mem_filter, decide_eq_true_eq]
+      exact ⟨(_, q), ⟨hqm, hq⟩, rfl⟩
+    · unfold merged at hqm
+      simp only [Option.getD_some] at hqm
+      rw [List.mem_append] at hqm
+      rcases hqm with h | h
+      · cases hpk : pkg with
+        | none => rw [hpk] at h; simp at h
+        | some s =>
+          rw [hpk] at h
+          simp only [Option.map_some, Option.getD_some, pkgTemplates, mem_templatesOf] at h
+          rw [h.2]
+      · simp only [dirsTemplates, mem_templatesOf] at h
+        rw [h.2]
+
+/-! ## 7. The construction of the environment as a state machine over the regenerated statement list
+
+`Gen/EnvCtor.lean` is rewritten from the source on every run (translate/env_ctor.py, Python `ast`): EVERY assignment to
+`_allow_replacements` under src/nunavut with file, line, function and right-hand side; the statements of
+`CodeGenEnvironment.__init__` in order; what the generators add after `create()`.  `constructSM` interprets that list;
+the flag is the regenerated right-hand side evaluated over the constructor's inputs — the argument, the loader object,
+and an arbitrary boolean for anything the translator did not understand. -/
+
+open Gen.EnvCtor in
+/-- Where the flag comes from: one assignment, in the constructor; the only input its right-hand side mentions is the
+constructor argument; the only reader is `_add_to_environment`.  (An extra disjunct such as
+`or getattr(loader, "masks_builtin_templates", False)` adds `loader.masks_builtin_templates` to `allowInputs`; an
+assignment elsewhere adds a row: this theorem then fails with the file and line in `allowAssignments`.) -/
+theorem C16_allow_flag_sources :
+    allowAssignments.map (fun a => a.1.func) = ["CodeGenEnvironment.__init__"] ∧
+    allowInputs = ["allow_filter_test_or_use_query_overwrite"] ∧
+    allowReaders = ["CodeGenEnvironment._add_to_environment"] := by decide
+
+/-- For EVERY loader configuration and every value of anything else the constructor could look at, each right-hand
+side `_allow_replacements` is assigned from evaluates to the constructor argument. -/
+theorem C16_allow_flag_is_constructor_argument (i : CtorInputs) :
+    ∀ a ∈ Gen.EnvCtor.allowAssignments, evalAllow i a.2 = i.allowArg := by
+  intro a ha
+  simp only [Gen.EnvCtor.allowAssignments, List.mem_singleton] at ha
+  subst ha
+  rfl
+
+/-- The order in which the constructor fills the collections, and what the generators add after `create()`, are the
+ones `construct` (sections 5) describes: Jinja defaults; the flag; additional globals (reserved names raise, the others
+through `_add_to_environment`); reserved namespaces, `now_utc`, language globals by plain assignment; language
+modules' and the environment's own filters and tests; additional filters; additional tests; then — `DSDLCodeGenerator`
+only — instance tests and the generator's own methods. -/
+theorem C16_constructor_order :
+    Gen.EnvCtor.ctorSteps = canonCtorSteps ∧ Gen.EnvCtor.dsdlGeneratorSteps = canonDsdlSteps ∧
+    Gen.EnvCtor.supportGeneratorSteps = [] := by decide
+
+/-- The three ways an environment comes to be (statement list, built-in items installed after `create()`):
+`DSDLCodeGenerator`, `SupportGenerator`, a bare `CodeGenEnvironmentBuilder.create()`. -/
+def ways (cfg : SMCfg) : List (List Gen.EnvCtor.Step × List (Kind × Name × Owner)) :=
+  [(stepsDsdlGenerator, cfg.instanceTests ++ cfg.generatorMethods), (stepsSupportGenerator, []), (stepsBuilder, [])]
+
+/-- The state machine over the regenerated list succeeds exactly when `construct` does, with the same environment, and
+ends with `_allow_replacements` equal to the constructor argument — whatever the loader is. -/
+theorem C16_state_machine_is_construct (cfg : SMCfg) (i : CtorInputs) : ∀ w ∈ ways cfg,
+    okOf (constructSM cfg i w.1) =
+      (okOf (construct (cfg.toEnvCfg w.2) i.allowArg i.ug i.uf i.ut)).map fun env => ⟨some i.allowArg, env⟩ := by
+  obtain ⟨h1, h2, h3⟩ := C16_constructor_order
+  intro w hw
+  simp only [ways, List.mem_cons, List.not_mem_nil, or_false] at hw
+  rcases hw with rfl | rfl | rfl
+  · simp only [stepsDsdlGenerator, h1, h2]; exact constructSM_canon_generator cfg i
+  · simp only [stepsSupportGenerator, h1, h3, List.append_nil]; exact constructSM_canon_builder cfg i
+  · simp only [stepsBuilder, h1]; exact constructSM_canon_builder cfg i
+
+/-- `_allow_replacements` after a construction is a function of the constructor argument only: any loader
+configuration, any additional globals / filters / tests, any of the three ways. -/
+theorem C16_allow_flag_after_construction (cfg : SMCfg) (i : CtorInputs) (w) (hw : w ∈ ways cfg) (st : SMState)
+    (h : constructSM cfg i w.1 = .ok st) : st.allow = some i.allowArg := by
+  have := C16_state_machine_is_construct cfg i w hw
+  rw [okOf_eq_some.mpr h] at this
+  cases hc : okOf (construct (cfg.toEnvCfg w.2) i.allowArg i.ug i.uf i.ut) with
+  | none => rw [hc] at this; cases this
+  | some env => rw [hc] at this; cases this; rfl
+
+/-- (b) For EVERY loader configuration (`i.loader`: any set of boolean attributes the loader object may have, e.g.
+`masks_builtin_templates = true`), every additional_* map and each of the three ways: with the constructor argument off,
+a construction that succeeds leaves every built-in name — of all three collections, whichever statement installs it, before
+or after the user's — with its built-in value. -/
+theorem C16_every_loader_configuration_keeps_builtins (cfg : SMCfg) (i : CtorInputs) (hoff : i.allowArg = false)
+    (w) (hw : w ∈ ways cfg) (st st₀ : SMState) (h : constructSM cfg i w.1 = .ok st)
+    (h₀ : constructSM cfg { i with ug := [], uf := [], ut := [] } w.1 = .ok st₀) :
+    (∀ n v, cget st₀.env.filters n = some v → cget st.env.filters n = some v) ∧
+    (∀ n v, cget st₀.env.tests n = some v → cget st.env.tests n = some v) ∧
+    (∀ n v, cget st₀.env.globals n = some v → cget st.env.globals n = some v) := by
+  have e := C16_state_machine_is_construct cfg i w hw
+  have e₀ := C16_state_machine_is_construct cfg { i with ug := [], uf := [], ut := [] } w hw
+  rw [okOf_eq_some.mpr h] at e
+  rw [okOf_eq_some.mpr h₀] at e₀
+  simp only [hoff] at e e₀
+  cases hc : okOf (construct (cfg.toEnvCfg w.2) false i.ug i.uf i.ut) with
+  | none => rw [hc] at e; cases e
+  | some env =>
+    cases hc₀ : okOf (construct (cfg.toEnvCfg w.2) false [] [] []) with
+    | none => rw [hc₀] at e₀; cases e₀
+    | some env₀ =>
+      rw [hc] at e; rw [hc₀] at e₀
+      cases e; cases e₀
+      exact C16_user_additions_never_replace_builtins (cfg.toEnvCfg w.2) i.ug i.uf i.ut env env₀
+        (okOf_eq_some.mp hc) (okOf_eq_some.mp hc₀)
+
+open Gen.EnvCtor in
+/-- The generators cannot switch the flag on: `CodeGenerator.__init__` never calls the builder's setter, the builder
+starts with the flag off, only its setter assigns it, and `create()` hands exactly that flag to the constructor.  So
+through `DSDLCodeGenerator` / `SupportGenerator` — with or without template directories — a colliding addition raises. -/
+theorem C16_generators_never_allow_replacements (i : CtorInputs) :
+    evalAllow i generatorAllow = false ∧ builderHandsOn = .ctorArg ∧
+    builderFlagAssignments.map (fun a => (a.1.func, a.2)) =
+      [("CodeGenEnvironmentBuilder.__init__", .const false),
+       ("CodeGenEnvironmentBuilder.set_allow_filter_test_or_use_query_overwrite", .ctorArg)] := by
+  refine ⟨rfl, by decide, by decide⟩
+
+/-- Which Jinja loaders exist: FIND_FIRST with user directories drops the package (the user's set REPLACES the built-in
+one — `DSDLCodeGenerator`), FIND_ALL keeps both (`SupportGenerator`), without user directories the package is used
+under either policy. -/
+theorem C16_loader_sources (dirs : List Store) (pkg : Option Store) :
+    loaderSources .findFirst (some dirs) pkg = (some dirs, none) ∧
+    loaderSources .findAll (some dirs) pkg = (some dirs, pkg) ∧
+    loaderSources .findFirst none pkg = (none, pkg) ∧ loaderSources .findAll none pkg = (none, pkg) ∧
+    Gen.EnvCtor.dsdlGeneratorFindFirst = true ∧ Gen.EnvCtor.supportGeneratorFindFirst = false := by
+  cases pkg <;> simp [loaderSources] <;> decide
+
+/-- Non-vacuity and the counterfactual: over a loader that has `masks_builtin_templates = true`, with the constructor
+argument off, (1) a non-colliding additional filter is installed, (2) a filter named like a Jinja built-in raises;
+(3) had the flag been assigned from `arg or getattr(loader, "masks_builtin_templates", False)` the same construction
+would have replaced the built-in silently. -/
+def exSM : SMCfg :=
+  { jinjaFilters := [("upper".toList, .jinja)], jinjaTests := [("defined".toList, .jinja)], jinjaGlobals := [("range".toList, .jinja)],
+    reservedNs := ["ln".toList], reservedNames := [nowUtc], langGlobals := [("typename_x".toList, .lang)],
+    langFilters := [("id".toList, .pre 0)], langTests := [("zero_cost".toList, .pre 0)],
+    ownFilters := [("own".toList, .pre 1)], ownTests := [],
+    instanceTests := [(.test, "boolean".toList, .post 0)], generatorMethods := [(.filter, "yamlfy".toList, .post 1)] }
+
+def exIn (uf : List (Name × Owner)) : CtorInputs :=
+  { allowArg := false, loader := ⟨[("masks_builtin_templates".toList, true)]⟩, unknown := fun _ => true, ug := [], uf := uf, ut := [] }
+
+example : (okOf (constructSM exSM (exIn [("mine".toList, .user 0)]) stepsDsdlGenerator)).map
+    (fun st => (cget st.env.filters "mine".toList, cget st.env.filters "upper".toList, st.allow)) =
+    some (some (.user 0), some .jinja, some false) := by decide
+
+example : (match constructSM exSM (exIn [("upper".toList, .user 0)]) stepsDsdlGenerator with
+    | .error e => some e
+    | .ok _ => none) = some (.env (.alreadyDefined "upper".toList)) := by decide
+
+example : (okOf (constructSM exSM (exIn [("upper".toList, .user 0)])
+      ([.jinjaDefaults, .setAllow (.or .ctorArg (.loaderAttr "masks_builtin_templates".toList false))] ++
+        Gen.EnvCtor.ctorSteps.drop 2 ++ Gen.EnvCtor.dsdlGeneratorSteps))).map
+    (fun st => cget st.env.filters "upper".toList) = some (some (.user 0)) := by decide
+
+/-! ## 8. Instance tests in the finished environment of every target language -/
+
+/-- For each target language (c, cpp, py, html) the instance tests found in `env.tests` of a real `DSDLCodeGenerator`
+(name and the class the closure is bound to, regenerated on every run) are exactly the model's enumeration over the
+class table: none missing, none replaced by a language's own test, none bound to another class.  Together with
+`C16_test_names_unambiguous` (no name or alias is claimed by two classes — over ALL roots the code enumerates from,
+observed by the translator, so a newly registered class such as `pydsdl.Boolean` whose alias `boolean` is also
+`BooleanType`'s breaks it). -/
+theorem C16_env_instance_tests_per_language :
+    Gen.EnvCtor.envInstanceTests.map (·.1) = ["c".toList, "cpp".toList, "py".toList, "html".toList] ∧
+    ∀ L ∈ Gen.EnvCtor.envInstanceTests, (∀ e ∈ genTestList, e ∈ L.2) ∧ (∀ e ∈ L.2, e ∈ genTestList) := by
+  decide +kernel
 
 end NunavutVerif.Resolve
